@@ -68,6 +68,9 @@ func (p *watPrinter) Fprint(w io.Writer, m *ast.Module) error {
 	if err := p.printFuncs(); err != nil {
 		return err
 	}
+	if err := p.printStart(); err != nil {
+		return err
+	}
 	if err := p.printData(); err != nil {
 		return err
 	}
